@@ -187,6 +187,23 @@ def c17_run(ctx):
                         problems.append(("count_nonzero:np", f"count_nonzero on {fl}:{sig} with 2 zero vectors of 6 gives {cn}"))
                 except Exception as e:  # noqa: BLE001
                     problems.append(("count_nonzero-raises:np", f"{fl}:{sig}: {type(e).__name__}: {str(e)[:80]}"))
+            # count_nonzero on boundary rows: exactly one non-zero Cartesian component (representable with z / t storage only)
+            if "theta" not in sig and "eta" not in sig and "tau" not in sig:
+                units = []
+                for j in range(dim):
+                    e = [0.0] * dim
+                    e[j] = 3.0 if j % 2 == 0 else -1.5
+                    units.append(e)
+                brow = [C.cart_to_stored(sig, e) if (e[0] or e[1]) else ([0.0, 0.0] + e[2:]) for e in units] + [[0.0] * dim]
+                for bname, mk in (("np", C.np_array), ("ak", C.ak_array)):
+                    n += 1
+                    try:
+                        arr = mk(fl, sig, brow)
+                        cn = int(numpy.count_nonzero(arr)) if bname == "np" else int(ak.count_nonzero(ak.unflatten(arr, [len(brow)]), axis=-1)[0])
+                        if cn != dim:
+                            problems.append((f"count_nonzero-boundary:{bname}", f"count_nonzero on {fl}:{sig} rows {brow} gives {cn}, want {dim} (each unit vector is non-zero)"))
+                    except Exception as e:  # noqa: BLE001
+                        problems.append((f"count_nonzero-raises:{bname}", f"{fl}:{sig}: {type(e).__name__}: {str(e)[:80]}"))
             # ---- Awkward jagged with an empty list
             counts = [2, 0, 3, 1]
             aj = ak.unflatten(C.ak_array(fl, sig, rows), counts)
